@@ -574,3 +574,21 @@ def symmetric():
     out.append(("ML4th", star("Tetrahedral", "C", ["H"] * 4, ("Tetrahedral", (0, 1, 2, 3, 4), 1))))
     out.append(("MA3B3", star("Octahedral", "Fe", ["F", "F", "F", "Cl", "Cl", "Cl"], ("Octahedral", (0, 1, 4, 2, 3, 5, 6), 1))))
     return out
+
+
+def spiro_changes():
+    """several stereo changes of one kind meeting at one atom: double ring closure to a dioxaspiropentane - the spiro carbon's formed
+    descriptor (R or S) and the formed descriptors of the two ring oxygens, which have the spiro carbon as a ligand; registered in
+    either order, and with the spiro descriptor alone (the same construction as pool 'spiro-stereo-changes' of C02)"""
+    sa = [(0, "C"), (1, "O"), (2, "O"), (3, "C"), (4, "C"), (5, "H"), (6, "H"), (7, "H"), (8, "H")]
+    sb = [(0, 1, "FORMED"), (0, 2, "FORMED"), (0, 3), (0, 4), (1, 3), (2, 4), (3, 5), (3, 6), (4, 7), (4, 8)]
+    sp = []
+    for par in (1, -1):
+        for order in (0, 1):
+            ch = [(0, {"FORMED": ("Tetrahedral", (0, 1, 3, 2, 4), par)}), (1, {"FORMED": ("Tetrahedral", (1, 0, 3, None, None), 1)}),
+                  (2, {"FORMED": ("Tetrahedral", (2, 0, 4, None, None), 1)})]
+            if order:
+                ch = ch[1:] + ch[:1]
+            sp.append(mk(SCRG, sa, sb, achg=dict(ch)))
+            sp.append(mk(SCRG, sa, sb, achg=dict(ch[:1] if not order else ch[-1:])))
+    return sp
